@@ -43,7 +43,14 @@ class ThreadProxy:
         self.thread = thread
 
     def __eq__(self, other):
-        return self.thread.ident == other.thread.ident
+        if self.thread.ident != other.thread.ident:
+            return False
+        if (isinstance(self.thread, threading.Thread)
+                and isinstance(other.thread, threading.Thread)):
+            # Thread identifiers are recycled: a thread started after
+            # another one has ended often gets the same ``ident``.
+            return self.thread is other.thread
+        return True
 
     def __repr__(self):
         return repr(self.thread)
